@@ -28,7 +28,8 @@ Record pstate := mkP {
   g_path : list string;                 (* sys.path *)
   g_meta : list hook;                   (* ArchiveMetaHook objects on sys.meta_path, in order *)
   g_modules : list (string * nat);      (* sys.modules entries that belong to analysed projects: name, owner *)
-  g_patched : list string }.            (* attributes currently replaced by a fake *)
+  g_patched : list string;              (* attributes currently replaced by a fake *)
+  g_capture : bool }.                   (* logging.captureWarnings is on (warnings.showwarning replaced) *)
 
 Inductive sop :=
 | OpImport (n : string)          (* import n *)
@@ -93,22 +94,22 @@ Fixpoint run_ops (ops : list sop) (st : pstate) (seen : list (string * nat)) : p
           | Some o => run_ops rest st (seen ++ [(n, o)])
           | None =>
               match first_hook (g_path st) n (g_meta st) with
-              | Some o => run_ops rest (mkP (g_cwd st) (g_path st) (g_meta st) ((n, o) :: g_modules st) (g_patched st))
+              | Some o => run_ops rest (mkP (g_cwd st) (g_path st) (g_meta st) ((n, o) :: g_modules st) (g_patched st) (g_capture st))
                                   (seen ++ [(n, o)])
               | None => (st, seen, true)        (* ImportError *)
               end
           end
-      | OpPathInsert p => run_ops rest (mkP (g_cwd st) (p :: g_path st) (g_meta st) (g_modules st) (g_patched st)) seen
+      | OpPathInsert p => run_ops rest (mkP (g_cwd st) (p :: g_path st) (g_meta st) (g_modules st) (g_patched st) (g_capture st)) seen
       | OpPathPop0 =>
           match g_path st with
           | [] => (st, seen, true)              (* IndexError *)
-          | _ :: r => run_ops rest (mkP (g_cwd st) r (g_meta st) (g_modules st) (g_patched st)) seen
+          | _ :: r => run_ops rest (mkP (g_cwd st) r (g_meta st) (g_modules st) (g_patched st) (g_capture st)) seen
           end
       | OpPathDrop p =>
-          run_ops rest (mkP (g_cwd st) (filter (fun x => negb (String.eqb x p)) (g_path st)) (g_meta st) (g_modules st) (g_patched st)) seen
+          run_ops rest (mkP (g_cwd st) (filter (fun x => negb (String.eqb x p)) (g_path st)) (g_meta st) (g_modules st) (g_patched st) (g_capture st)) seen
       | OpPathRemove p =>
           if mem p (g_path st)
-          then run_ops rest (mkP (g_cwd st) (remove_first p (g_path st)) (g_meta st) (g_modules st) (g_patched st)) seen
+          then run_ops rest (mkP (g_cwd st) (remove_first p (g_path st)) (g_meta st) (g_modules st) (g_patched st) (g_capture st)) seen
           else (st, seen, true)                 (* ValueError *)
       | OpChdir _ => run_ops rest st seen
       end
@@ -118,28 +119,32 @@ Fixpoint run_ops (ops : list sop) (st : pstate) (seen : list (string * nat)) : p
 Fixpoint remove_all (xs : list string) (l : list string) : list string :=
   match xs with [] => l | x :: r => remove_all r (remove_first x l) end.
 
-(* one clean-up statement: Some st' = done, None = it raised (the rest of the block is skipped) *)
-Definition cleanup_step (p : project) (c : cstep) (st : pstate) : option pstate :=
+(* one clean-up statement: Some st' = done, None = it raised (the rest of the block is skipped).
+   [saved] = sys.path as copied directly before `with patches:`; [started] = this call switched the capture on *)
+Definition cleanup_step (p : project) (saved : list string) (started : bool) (c : cstep) (st : pstate) : option pstate :=
   match c with
   | CPathRemove guarded =>
       if mem (pj_setupdir p) (g_path st)
-      then Some (mkP (g_cwd st) (remove_first (pj_setupdir p) (g_path st)) (g_meta st) (g_modules st) (g_patched st))
+      then Some (mkP (g_cwd st) (remove_first (pj_setupdir p) (g_path st)) (g_meta st) (g_modules st) (g_patched st) (g_capture st))
       else if guarded then Some st else None
-  | CEndPatch name => Some (mkP (g_cwd st) (g_path st) (g_meta st) (g_modules st) (remove_first name (g_patched st)))
+  | CPathRestore => Some (mkP (g_cwd st) saved (g_meta st) (g_modules st) (g_patched st) (g_capture st))
+  | CEndPatch name => Some (mkP (g_cwd st) (g_path st) (g_meta st) (g_modules st) (remove_first name (g_patched st)) (g_capture st))
   | CMetaRemove guarded =>
       match remove_hook (pj_id p) (g_meta st) with
-      | Some m => Some (mkP (g_cwd st) (g_path st) m (g_modules st) (g_patched st))
+      | Some m => Some (mkP (g_cwd st) (g_path st) m (g_modules st) (g_patched st) (g_capture st))
       | None => if guarded then Some st else None
       end
   | CModules =>
       Some (mkP (g_cwd st) (g_path st) (g_meta st)
-                (filter (fun e => negb (Nat.eqb (snd e) (pj_id p))) (g_modules st)) (g_patched st))
+                (filter (fun e => negb (Nat.eqb (snd e) (pj_id p))) (g_modules st)) (g_patched st) (g_capture st))
+  | CCaptureUndo =>
+      Some (mkP (g_cwd st) (g_path st) (g_meta st) (g_modules st) (g_patched st) (if started then false else g_capture st))
   end.
-Fixpoint run_cleanup (p : project) (cs : list cstep) (st : pstate) : pstate * bool :=
+Fixpoint run_cleanup (p : project) (saved : list string) (started : bool) (cs : list cstep) (st : pstate) : pstate * bool :=
   match cs with
   | [] => (st, false)
-  | c :: r => match cleanup_step p c st with
-              | Some st' => run_cleanup p r st'
+  | c :: r => match cleanup_step p saved started c st with
+              | Some st' => run_cleanup p saved started r st'
               | None => (st, true)
               end
   end.
@@ -155,26 +160,31 @@ Definition analyse (st : pstate) (p : project) : outcome * pstate :=
   let resolved := resolve (g_cwd st) (pj_arg p) in
   match pj_kind p with
   | KSetupPy =>
-      (* begin_patch x3, sys.meta_path.append(hook); `with patches:`; sys.path.insert(0, abs_setupdir) *)
+      (* captureWarnings(True); begin_patch x3; sys.meta_path.append(hook); saved_sys_path = list(sys.path);
+         `with patches:`; sys.path.insert(0, abs_setupdir) *)
+      let started := negb (g_capture st) in
+      let saved := g_path st in
       let st1 := mkP (g_cwd st) (pj_setupdir p :: g_path st)
                      (g_meta st ++ [mkHook (pj_id p) (pj_setupdir p) (pj_helpers p)])
-                     (g_modules st) (begin_patched ++ ctx_patched ++ g_patched st) in
+                     (g_modules st) (begin_patched ++ ctx_patched ++ g_patched st) true in
       match run_ops (pj_ops p) st1 [] with
       | (st2, seen, raised) =>
           let script_failed := raised || match pj_end p with ERaise => true | _ => false end in
-          match run_cleanup p cleanup_steps st2 with
+          match run_cleanup p saved started cleanup_steps st2 with
           | (st3, cleanup_raised) =>
               (* leaving `with patches:` - a context manager: undone iff patch() restores in a finally *)
               let st4 := if ctx_restored_in_finally || negb (script_failed || cleanup_raised)
-                         then mkP (g_cwd st3) (g_path st3) (g_meta st3) (g_modules st3) (remove_all ctx_patched (g_patched st3))
+                         then mkP (g_cwd st3) (g_path st3) (g_meta st3) (g_modules st3) (remove_all ctx_patched (g_patched st3)) (g_capture st3)
                          else st3 in
               (mkOut resolved seen (script_failed || cleanup_raised) false, st4)
           end
       end
   | KPep517 raises =>
-      (* old_cwd = os.getcwd(); os.chdir(source_file); with patch(...): prepare(dest); os.chdir(old_cwd) *)
+      (* old_cwd = os.getcwd(); os.chdir(source_file); with patch(...): prepare(dest); os.chdir(old_cwd);
+         a raising hook is reported as a MetadataError iff extract_metadata wraps it *)
       let cwd' := if pep517_chdir_restored_in_finally || negb raises then g_cwd st else pj_dir p in
-      (mkOut resolved [] raises raises, mkP cwd' (g_path st) (g_meta st) (g_modules st) (g_patched st))
+      (mkOut resolved [] raises (raises && negb pep517_failure_wrapped),
+       mkP cwd' (g_path st) (g_meta st) (g_modules st) (g_patched st) (g_capture st))
   end.
 
 Fixpoint run_seq (st : pstate) (ps : list project) : list outcome * pstate :=
@@ -185,23 +195,8 @@ Fixpoint run_seq (st : pstate) (ps : list project) : list outcome * pstate :=
               end
   end.
 
-(* ---------------------------------------------------------------- the decidable guard of the frame theorem *)
-(* the script's own sys.path surgery is confined to taking the setup dir off again *)
-(* [fresh] = no sys.path operation of the script has run yet, so sys.path[0] is still the setup dir:
-   a pop(0) is allowed only then; drop/remove only of the setup dir; no insertion *)
-Fixpoint neutral_from (sd : string) (fresh : bool) (ops : list sop) : bool :=
-  match ops with
-  | [] => true
-  | OpImport _ :: r | OpChdir _ :: r => neutral_from sd fresh r
-  | OpPathPop0 :: r => fresh && neutral_from sd false r
-  | OpPathDrop p :: r | OpPathRemove p :: r => String.eqb p sd && neutral_from sd false r
-  | OpPathInsert _ :: _ => false
-  end.
-Definition neutral_ops (setupdir : string) (ops : list sop) : bool := neutral_from setupdir true ops.
+(* ---------------------------------------------------------------- the states a process can be in between analyses *)
+(* nothing of an earlier analysis is left: no project hook, no project module, no patched attribute.
+   The initial state of a process is quiescent and (C12_frame) every analysis gives it back. *)
 Definition quiescent (st : pstate) : bool :=
   match g_meta st, g_modules st, g_patched st with [], [], [] => true | _, _, _ => false end.
-Definition neutral (st : pstate) (p : project) : bool :=
-  match pj_kind p with
-  | KSetupPy => neutral_ops (pj_setupdir p) (pj_ops p) && negb (mem (pj_setupdir p) (g_path st))
-  | KPep517 _ => true
-  end.
